@@ -102,7 +102,7 @@ def oFrames (st : OSt) : List OFrame → Except String OSt
       if f.h.rsv != expRsv then .error s!"rsv-{f.h.rsv}-expected-{expRsv}"
       else
         let (m, ms) := if st.client then (st.masks.headD Mask.zero, st.masks.drop 1) else (Mask.zero, st.masks)
-        if st.client && f.h.mask != m then .error "mask-not-the-drawn-key"
+        if st.client && !st.masks.isEmpty && f.h.mask != m then .error "mask-not-the-drawn-key"   -- (list exhausted: unknown)
         else
           let plain := if st.client then xorSpec f.payload m 0 else f.payload
           if plain != st.pending.take plain.length then .error "payload-not-the-accepted-bytes-in-order"
